@@ -61,3 +61,10 @@ def extend(specs):
     p["b"] = "replaced-b"
     p["z"] = ["added", 1]
     return p
+
+
+@m.memento_function(cluster="vfc", version="1")
+def through(level, specs):
+    """Hands on, unchanged, the partition another memoized call returned."""
+    sys.audit("vf.body", "through", level)
+    return part(level, specs)
